@@ -75,6 +75,10 @@ RowUpdateOK(enc, req, pre, post, t, u, ru) ==
               IF enc = 1
               THEN /\ ru.hasOld /\ ru.hasNew
                    /\ MonRowJ(req, t, ru.new) = ProjectRow(req, t, post[t][u])
+                   \* every changed monitored column is reported: a client that
+                   \* applies "new" column by column has no other way to learn
+                   \* that a column went back to its default
+                   /\ \A c \in MonCols(req, t) : pre[t][u][c] # post[t][u][c] => c \in DOMAIN ru.new
                    /\ \A c \in colsIn(ru.old) : ValJ(Col(t, c), ru.old[c]) = pre[t][u][c]
               ELSE \* the difference, applied to the old projection, gives the new one,
                    \* and mentions only columns that changed
